@@ -21,11 +21,12 @@ Junk == Of("junk", {"zero", "ff", "rnd"}, {"1", "64"})
 Control == Of("scs", {"0", "1", "128", "4096", "max31", "max32"}, {"ok"})
       \cup {Msg("scs", "128", "short"), Msg("scs", "128", "empty"), Msg("scs", "4096", "long")}
       \cup Of("ack", {""}, {"0", "3", "4", "8"})
-      \cup Of("winack", {""}, {"0", "3", "4z", "4m", "4", "5"})
+      \cup Of("winack", {""}, {"0", "3", "4z", "4m", "4", "5", "4one", "4two", "4three", "4h"})
       \cup Of("uc", {"ping"}, {"0", "1", "2", "3", "4", "5", "6", "7", "8"})
       \cup {Msg("uc", "begin", "2"), Msg("uc", "begin", "6"), Msg("uc", "ff", "2"), Msg("uc", "buflen", "8")}
 Others == Of("other", {ToString(t) : t \in TypePool}, {"empty", "1", "16"})
-Commands == Of("cmd", {"connect"}, {"ok", "ok3", "nolast", "badmarker", "null", "noapp", "noend", "deep", "deepok"})
+Commands == Of("cmd", {"connect"}, {"ok", "ok3", "nolast", "badmarker", "null", "noapp", "noend", "deep", "deepok",
+                                     "appnum", "appbool", "appobj", "tcnum", "oestr", "fvobj"})
        \cup Of("cmd", {"createStream"}, {"ok", "nolast"})
        \cup Of("cmd", {"publish"}, {"ok", "nolast", "noname", "badmarker", "numforstr", "longstr", "emptyname", "query", "dots", "cutstr", "lstrname"})
        \cup Of("cmd", {"play"}, {"ok", "nolast", "noname", "badmarker", "numforstr", "longstr", "emptyname"})
